@@ -342,6 +342,60 @@ fn check_doc(d: &DocModel, obs: &mut Obs) -> Verdict {
             "SourceMap::from_slice accepts a Hermes document as regular"
         );
     }
+    // the format does not demand the shortest spelling of a number: the same document with every
+    // value padded by one zero group ("C" = "iA" = 1) decodes to the same map
+    {
+        let canonical = d.mappings();
+        let mut padded = String::with_capacity(canonical.len() * 2);
+        let mut seg = String::new();
+        let mut flush = |seg: &mut String, out: &mut String| {
+            if seg.is_empty() {
+                return;
+            }
+            match crate::refimpl::vlq::read(seg) {
+                Ok(vals) => {
+                    for v in vals {
+                        let t = crate::refimpl::vlq::write_all(&[v.value as i64]);
+                        if t.len() >= 12 {
+                            out.push_str(&t);
+                        } else {
+                            let (head, last) = t.split_at(t.len() - 1);
+                            let dgt = crate::refimpl::vlq::digit_of(last.as_bytes()[0]).expect("own writer");
+                            out.push_str(head);
+                            out.push(crate::refimpl::vlq::ALPHABET[(dgt + 32) as usize] as char);
+                            out.push('A');
+                        }
+                    }
+                }
+                Err(_) => out.push_str(seg),
+            }
+            seg.clear();
+        };
+        for ch in canonical.chars() {
+            if ch == ',' || ch == ';' {
+                flush(&mut seg, &mut padded);
+                padded.push(ch);
+            } else {
+                seg.push(ch);
+            }
+        }
+        flush(&mut seg, &mut padded);
+        if padded != canonical {
+            let mut d2 = d.clone();
+            d2.mappings_override = Some(padded.clone());
+            let t2 = d2.to_json();
+            match guarded!("decode_slice (padded values)", decode_slice(t2.as_bytes())) {
+                Ok(m) => {
+                    let v = compare_decoded(&m, d, "decode_slice of the same document with padded VLQ values");
+                    if !v.is_pass() {
+                        return v;
+                    }
+                    obs.class("also-with-non-canonical(padded)-vlq-values");
+                }
+                Err(e) => return Verdict::Fail(format!("decode_slice rejects the document when its VLQ values are padded with a zero group ({padded:?}): {e}")),
+            }
+        }
+    }
     let s = shape_of(d);
     obs.class_if(s.empty_line, "empty-line");
     obs.class_if(s.empty_seg, "empty-segment");
